@@ -13,9 +13,12 @@ import universe as U
 class Batch:
     """one universe (Defs) and the scenarios that run against it"""
 
-    def __init__(self, name, defs, scenarios, env=None, race=False, maxstack=0):
+    def __init__(self, name, defs, scenarios, env=None, race=False, maxstack=0, records=None):
         self.name, self.defs, self.scenarios = name, defs, scenarios
         self.env, self.race, self.maxstack = env, race, maxstack
+        # records: a trace assembled by the orchestrator from observations of earlier batches (cross-environment
+        # comparisons); nothing is executed for it.  After a batch ran, its own records are kept here.
+        self.records = records
 
 
 class Result:
@@ -66,10 +69,16 @@ def run_batches(res, work, batches, clause_filter=None, nshards=None, want_props
         if not b.scenarios:
             continue
         t0 = time.time()
-        binp, defs_path = vlib.build_driver(work, b.defs, race=b.race)
-        t1 = time.time()
-        records = vlib.run_driver(work, binp, defs_path, b.scenarios, env=b.env, maxstack=b.maxstack)
-        t2 = time.time()
+        if b.records is not None:
+            defs_path = vlib.write_defs(work, b.defs)
+            records = b.records
+            t1 = t2 = time.time()
+        else:
+            binp, defs_path = vlib.build_driver(work, b.defs, race=b.race)
+            t1 = time.time()
+            records = vlib.run_driver(work, binp, defs_path, b.scenarios, env=b.env, maxstack=b.maxstack)
+            b.records = records
+            t2 = time.time()
         rejections, st = vlib.judge(work, defs_path, records, nshards=nshards)
         t3 = time.time()
         res.notes.append("batch %s: %d scenarios, %d lines; build %.1fs, driver %.1fs, TLC judge %.1fs (%d shards)" % (
